@@ -128,9 +128,6 @@ pub fn worker_main(args: &[String]) -> i32 {
             crate::trace::Step::Apply(_) | crate::trace::Step::Charset(_) => false,
             _ => true,
         });
-        if nontrivial {
-            cov.run_sigs.insert(sig);
-        }
         for (k, n) in &trace.faults {
             cov.add(&format!("fault_{}", k), *n as u64);
         }
@@ -145,7 +142,14 @@ pub fn worker_main(args: &[String]) -> i32 {
         if cov.samples.len() < 3 && nontrivial && (i / stride) % 7 == 3 {
             cov.samples.push(trace.summary());
         }
-        match check_guarded(prop.as_ref(), &trace, &mut cov) {
+        cov.nontrivial = None;
+        let outcome = check_guarded(prop.as_ref(), &trace, &mut cov);
+        // distinct AND non-trivial by the property's own rule (falls back to "has a non-empty step")
+        if cov.nontrivial.take().unwrap_or(nontrivial) {
+            cov.run_sigs.insert(sig);
+            cov.hit("runs_nontrivial");
+        }
+        match outcome {
             Outcome::Held => {}
             Outcome::Violated(v) => {
                 let n = classes_seen.entry(v.class.clone()).or_insert(0);
@@ -698,7 +702,7 @@ fn write_evidence(
         "coverage": {
             "evaluations": runs,
             "distinct_nontrivial": distinct,
-            "rule": prop.rule(),
+            "rule": format!("{} -- Measured: a run counts as non-trivial when this property's oracle actually judged something in it (step properties: at least one owned operation judged; C02: >= 2 bytes and >= 1 cut; C03: a non-text event expected; C11: >= 2 bytes; C15: a RIS occurred; C19: a complete OSC; otherwise: at least one non-empty step) - counter runs_nontrivial; distinct_nontrivial is the exact number of distinct (steps, geometry, mode, front end, wiring, extra) signatures among those runs.", prop.rule()),
             "samples": cov.samples,
             "exhaustive": false,
             "runs_per_hour": per_hour,
